@@ -151,9 +151,10 @@ def run(ctx):
             if l.startswith('#'): break
             sp = l.split(' ')[0]
             (l0, c0), (l1, c1) = [tuple(map(int, x.split(':'))) for x in sp.split('-')]
-            if l0 != l1 or k >= len(lexemes) or lines[l0][c0:c1] != lexemes[k]:
+            inside = l0 < len(lines) and l1 < len(lines)      # a span outside the text is a span that does not contain the token
+            if not inside or l0 != l1 or k >= len(lexemes) or lines[l0][c0:c1] != lexemes[k]:
                 # adjacent lexemes may legitimately fuse (e.g. `=` `=`) - only report when the text differs from every lexeme join
-                joined = lines[l0][c0:c1] if l0 == l1 else None
+                joined = lines[l0][c0:c1] if (inside and l0 == l1) else None
                 if joined is None or not any(joined == ''.join(lexemes[k:j]) for j in range(k + 1, min(len(lexemes), k + 4) + 1)):
                     bad += 1
                     if bad <= 2:
